@@ -295,9 +295,34 @@ def sec_gather(ck, N, B, first=False):
 
 
 # ------------------------------------------------------------------------------------------------ flatten_axes
-def sec_flatten(ck, E, S_, first=False):
+def sec_flatten(ck, E, S_, first=False, axes=None):
     lead = (E, S_)
     buf = mkrb(lead)
+    if axes is not None:
+        # an explicit order of the batch axes (any order is a valid request): every leaf, whatever its rank, must be rearranged the same way
+        tag = f"E={E},S={S_},batch_axes={axes}".replace(" ", "")
+        tr = trace_or_violation(ck, f"flatten.count@{tag}", lambda b: b.flatten_axes(axes), (buf,), ["buf"], f"AbstractBuffer.flatten_axes({axes})", stub=False)
+        if tr is None:
+            return
+        it = Interp()
+        S = tr.symbols(it)
+        out = tr.run(it, S)
+        R = Rows(tr, S, 2)
+        N = E * S_
+        ok_shape = all(tuple(out[L].shape) == (N,) + tuple(S["buf_" + L].shape[2:]) for L in R.leaves)
+        ck.fact(f"flatten.count@{tag}", ok_shape, f"every leaf has {N} rows after flattening the batch axes in the order {axes}")
+        if not ok_shape:
+            return
+        orow = out_rows(out, R.leaves, 1)
+        onto = conj([disj([eq_elem(orow[TAG][i], t) for i in range(N)]) for t in R.tags])
+        g = conj([onto, g_aligned(R, orow)])
+
+        def rp(res):
+            irow, orow_, w, inp, m = real_rows(tr, S, res, it, 2, 1)
+            bad = concrete_check(irow, orow_, "member distinct aligned", expect_rows=N)
+            return bool(bad), {"function": tr.label, "collected_tags": irow[TAG].tolist(), "flattened_tags": orow_[TAG].tolist(), "failures": bad[:6]}
+        ck.prove(f"flatten.bijection@{tag}", R.distinct(), g, replay=rp, margin_goal=implies(conj(bounded_inputs(S, tr)), g))
+        return
     tr = trace_or_violation(ck, f"flatten.count@E={E},S={S_}", lambda b: b.flatten_axes(), (buf,), ["buf"], "AbstractBuffer.flatten_axes", stub=False)
     if tr is None:
         return
@@ -715,7 +740,7 @@ def main():
         visit_cfgs = [(2, 2, 1, 2), (1, 5, 1, 2), (1, 5, 1, 3), (2, 2, 2, 2)]
         ch = ((0, 1, 2), (1, 2), 30)
     ck.bound(max_samples_N=maxN, batches_configs_E_S_B=[list(c) for c in cfgs], batch_indices_N_B="all 1<=B<=N<=%d" % maxN, gather_N_B=[list(c) for c in gather_cfgs],
-             flatten_E_S=[list(c) for c in flat_cfgs], rollout_sample_E_S_B=[list(c) for c in sample_cfgs], train_keys_E_S_epochs_batches=[list(c) for c in key_cfgs],
+             flatten_E_S=[list(c) for c in flat_cfgs], flatten_explicit_axis_orders="(0,1), (1,0), (-1,-2) on " + ("every E,S > 1 configuration" if ck.thorough else "E,S = 2,3 and 3,2"), rollout_sample_E_S_B=[list(c) for c in sample_cfgs], train_keys_E_S_epochs_batches=[list(c) for c in key_cfgs],
              train_visit_counts_E_S_epochs_batches=[list(c) for c in visit_cfgs], resolve_axes_ndim=list(ch[0]), resolve_axes_tuple_lengths=list(ch[1]),
              note="(E,S,B), epochs and ndim are static (enumerated); buffer cells, the permutation / choice draw and the keys are symbolic; buffers with one environment have "
                   "shape (S,), otherwise (E,S), as the on-policy algorithms build them")
@@ -749,6 +774,10 @@ def main():
     for i, (E, S_) in enumerate(flat_cfgs):
         with ck.section(f"flatten@E={E},S={S_}"):
             sec_flatten(ck, E, S_, first=(E, S_) == (2, 3))
+        if E > 1 and S_ > 1 and (ck.thorough or (E, S_) in ((2, 3), (3, 2))):
+            for axes in ((0, 1), (1, 0), (-1, -2)):
+                with ck.section(f"flatten@E={E},S={S_},axes={axes}"):
+                    sec_flatten(ck, E, S_, axes=axes)
     for i, (E, S_, B) in enumerate(sample_cfgs):
         with ck.section(f"sample@E={E},S={S_},B={B}"):
             ck.second = second and E * S_ <= 6
